@@ -81,19 +81,27 @@ def generate(seed, tier, index, kf):
     n = len(box["msgs"])
     name = box["name"]
     ops = [{"s": "sa", "op": "select", "mbox": name, "examine": False, "when": {"delay": 0.0}}, {"s": "sb", "op": "select", "mbox": name, "examine": False, "when": {"delay": 0.0}}]
+    peek = r.random() < 0.5  # variant in which nothing touches \\Seen: the delivered message must keep what the agent gave it
     for _ in range(r.randint(1, 2)):
         k = r.randint(4, n - 2)
         first = sorted(r.sample(range(1, k + 1), r.randint(3, k)))
         other = r.randint(k + 1, n)
         base = r.choice((0.5, 1.0, 2.0))
-        ops.append({"s": "sa", "op": "fetch", "uid": r.random() < 0.5, "set": {"pos": first}, "items": r.choice(("(BODY[])", "(RFC822)", "(FLAGS BODY[TEXT])", "(FLAGS)")), "when": {"delay": base}})
+        ops.append({"s": "sa", "op": "fetch", "uid": r.random() < 0.5, "set": {"pos": first}, "items": r.choice(("(BODY.PEEK[])", "(BODY.PEEK[HEADER])", "(UID BODY.PEEK[TEXT])")) if peek else r.choice(("(BODY[])", "(RFC822)", "(FLAGS BODY[TEXT])", "(FLAGS)")), "when": {"delay": base}})
         x = r.random()
-        if x < 0.7:
-            ops.append({"s": "sb", "op": "store", "uid": r.random() < 0.5, "set": {"pos": [other]}, "how": r.choice("+-="), "flags": [r.choice(("\\Flagged", "\\Answered", "kw1", "\\Deleted"))], "silent": r.random() < 0.3, "when": {"delay": base + r.choice((0.0, 0.001, 0.005, 0.02, 0.1, 0.3, 0.8))}})
-        if x > 0.5:
-            ops.append({"actor": "agent", "op": "deliver", "mbox": name, "count": 1, "unseen": True, "split": False, "advance": r.random() < 0.5, "when": {"delay": base + r.choice((0.0, 0.002, 0.02, 0.1, 0.4, 1.0))}})
+        if peek and r.random() < 0.4:
+            # the last message is expunged while an MH agent delivers: the freed number is re-used at once
+            ops.append({"s": "sb", "op": "store", "uid": False, "set": {"raw": "*"}, "how": "+", "flags": ["\\Deleted", "\\Flagged"], "silent": r.random() < 0.5, "when": {"delay": base}})
+            ops.append({"s": "sb", "op": "expunge", "when": {"delay": r.choice((0.0, 0.01, 0.1))}})
+        elif x < 0.7 or peek:
+            # (peek variant: addressed by UID - the initial messages have UIDs 1..n - so that it can never name a delivered message)
+            ops.append({"s": "sb", "op": "store", "uid": True if peek else r.random() < 0.5, "set": {"uids": [other]} if peek else {"pos": [other]}, "how": r.choice("+-="), "flags": [r.choice(("\\Flagged", "\\Answered", "kw1", "\\Deleted"))], "silent": r.random() < 0.3, "when": {"delay": base + r.choice((0.0, 0.001, 0.005, 0.02, 0.1, 0.3, 0.8))}})
+        if x > 0.5 or peek:
+            ops.append({"actor": "agent", "op": "deliver", "mbox": name, "count": 1, "unseen": True, "split": False, "advance": (r.random() < 0.6) if peek else r.random() < 0.5, "when": {"delay": base + r.choice((0.0, 0.002, 0.02, 0.1, 0.4, 1.0))}})
     prog["ops"] = ops
     prog["family"] = "flag-race"
+    if peek:
+        prog["seen_oracle"] = "strict"  # and no STORE can name a delivered message: it carries nothing but (un)seen and \\Recent
     # a slow reader on a small socket buffer: the FETCH really is suspended between messages
     prog["knobs"] = dict(prog.get("knobs") or {}, sock_buf=r.choice((128, 256, 1024)))
     prog["latency"] = dict(prog.get("latency") or {}, net=r.choice(("small", "bimodal", "slow", "wide")))
